@@ -19,6 +19,11 @@ def configs(ctx):
     for mode in dwtlib.MODES5:
         one.append((mode, 4, 11, 2, 2, 3))
         two.append((mode, 'name', 4, 4, 7, 10, 2, 2, 3))
+    # the documented short spelling 'per' of periodization
+    for L in (2, 4, 8):            # sizes outside the short-signal region (known finding F8)
+        for N in ((5, 8, 12, 17) if L < 8 else (17, 24, 33)):
+            one.append(('per', L, N, 2 if L < 8 else 1, 1, 2))
+        two.append(('per', 'name', L, L, 9, 12, 2 if L < 8 else 1, 1, 2))
     return one, two
 
 
